@@ -147,6 +147,11 @@ func c30Alphabet(thorough bool) []c30Op {
 	for _, s := range subsets {
 		ops = append(ops, c30Op{kind: 'R', ids: s, name: "RemoveMissing(" + c30IDs(s) + ")"})
 	}
+	// the argument is a list: the same id may occur twice (the list then has as many entries as a
+	// larger set of tracked repositories has members)
+	for _, s := range [][]uint32{{1, 1}, {2, 2}, {1, 1, 2}, {3, 1, 3}} {
+		ops = append(ops, c30Op{kind: 'R', ids: s, name: "RemoveMissing(" + c30IDs(s) + ")"})
+	}
 	for _, d := range []time.Duration{c30Unit, c30Backoff, c30Max} {
 		ops = append(ops, c30Op{kind: 'T', d: d, name: fmt.Sprintf("Advance(%d)", d/c30Unit)})
 	}
